@@ -1,19 +1,20 @@
 #!/bin/sh
 # usage: seedrun.sh <seed-dir-with-patch.diff> <tier> <check-id>...
-# Applies the seeded change to /repo, runs the given checks, and always restores /repo.
+# Runs the given checks against /repo WITH the seeded change applied. The change is applied to a scratch COPY of
+# /repo's working tree (VERIF_REPO), never to /repo itself: a check of the unchanged tree that happens to build
+# at the same moment (a thorough run in the background) must not pick the change up - that happened once and
+# produced two violations that belonged to a seed. Evidence of these runs goes to a scratch directory as well.
 set -u
 SEED=$1; TIER=$2; shift 2
 cd /verif
-if ! git -C /repo diff --quiet; then echo "refusing: /repo has local changes"; exit 3; fi
-git -C /repo apply "$SEED/patch.diff" || { echo "patch does not apply"; exit 3; }
-# evidence of a run against a CHANGED tree never goes to /verif/evidence (that directory holds runs on /repo as it is)
-EV=$(mktemp -d /tmp/seedrun-ev.XXXXXX)
+W=$(mktemp -d /tmp/seedrun.XXXXXX)
+trap 'rm -rf "$W"' EXIT
+mkdir -p "$W/ev"
+rsync -a --exclude .git /repo/ "$W/repo/"
+( cd "$W/repo" && git init -q . >/dev/null 2>&1 && git apply "$SEED/patch.diff" ) || { echo "patch does not apply"; exit 3; }
 for id in "$@"; do
-  VERIF_EVIDENCE_DIR="$EV" bin/vcheck "$id" "$TIER" > /tmp/seedrun-$id.log 2>&1
+  VERIF_REPO="$W/repo" VERIF_EVIDENCE_DIR="$W/ev" bin/vcheck "$id" "$TIER" > /tmp/seedrun-$id.log 2>&1
   rc=$?
   echo "== $id $TIER rc=$rc : $(grep -c '^VIOLATION' /tmp/seedrun-$id.log) violation lines"
   grep '^VIOLATION\|^  key=\|^SUMMARY\|VERIF-ERROR' /tmp/seedrun-$id.log | head -12
 done
-git -C /repo checkout -- .
-rm -rf "$EV"
-git -C /repo status --short | head
